@@ -1,6 +1,6 @@
 (* C15 — no message from the network can crash or wedge a pool or an agent. *)
 From Coq Require Import String.
-From VP Require Import Base Dispatch Total TotalProofs.
+From VP Require Import Base Dispatch Total TotalProofs Wedge WedgeProofs.
 From VPgen Require Import Facts.
 Open Scope string_scope.
 
@@ -97,3 +97,24 @@ Fixpoint site_list_eqb (a b : list (string * string * string * string)) : bool :
 Theorem c15_sites_reviewed : site_list_eqb panic_sites reviewed_sites = true.
 Proof. vm_compute. reflexivity. Qed.
 Print Assumptions c15_sites_reviewed.
+
+(* "every other connection keeps being served": no wedge.  The handlers of all connections share
+   the pool mutex.  The stretches of pool/service.go that hold it contain no wait for another
+   party (structural facts regenerated from the source on every run); for handlers of that shape,
+   in every reachable state and whatever replies remote peers withhold for ever, a handler that
+   is not itself waiting for a remote party performs its next step after finitely many steps of
+   the others.  A handler that does wait under the mutex wedges all the others. *)
+Theorem c15_pool_mutex_never_held_while_waiting :
+  (0 <? pool_mutex_spans)%Z = true /\ pool_mutex_waits_inside = 0%Z.
+Proof. vm_compute. auto. Qed.
+Theorem c15_no_wedge : forall thr sch t,
+  Forall (fun p => wf false p = true) thr ->
+  let s := wrun {| w_holder := None; w_thr := thr |} sch in
+  finished_thr s t = false -> next_is_wait s t = false ->
+  exists sch2 s', wstep (wrun s sch2) t = Some s' /\ steps_left s' t = pred (steps_left s t).
+Proof. exact no_wedge. Qed.
+Print Assumptions c15_no_wedge.
+Theorem c15_waiting_under_the_mutex_wedges : forall sch,
+  let s := wrun {| w_holder := None; w_thr := wedged_threads |} (0%nat :: sch) in
+  wstep s 1%nat = None /\ next_is_wait s 1%nat = false /\ finished_thr s 1%nat = false.
+Proof. exact waiting_under_the_mutex_wedges. Qed.
